@@ -165,7 +165,7 @@ func FieldsRead(info *types.Info, nodes []ast.Node) map[string]map[string]bool {
 			if out[tn] == nil {
 				out[tn] = map[string]bool{}
 			}
-			out[tn][s.Obj().Name()] = true
+			out[tn][N(s.Obj())] = true
 			return true
 		})
 	}
@@ -179,9 +179,9 @@ func QualName(t types.Type) string {
 		return t.String()
 	}
 	if n.Obj().Pkg() == nil {
-		return n.Obj().Name()
+		return N(n.Obj())
 	}
-	return n.Obj().Pkg().Name() + "." + n.Obj().Name()
+	return n.Obj().Pkg().Name() + "." + CanonName(n.Obj())
 }
 
 // DeclaredImplementers returns the closed set the repository itself declares
